@@ -1,29 +1,29 @@
 CONSTANTS
   M = 16
-  MaxPackets = 4
+  MaxPackets = 5
   MinPackets = 1
   FrameSizes = {1, 2, 3}
   SameTs = FALSE
-  MaxLates = {2}
+  MaxLates = {2, 3}
   Delays = {0}
-  StartBacks = {2}
+  StartBacks = {2, 9}
   MarkerModes = {TRUE, FALSE}
   HeadModes = {FALSE}
   Windows = {3}
   Modes = {"all"}
   MaxLoss = 1
   MaxDup = 1
-  MaxPopCalls = 2
-  MaxMidFlush = 0
-  Eagers = {FALSE, TRUE}
+  MaxPopCalls = 1
+  MaxMidFlush = 1
+  Eagers = {FALSE}
   Holds = {0}
   HoldFors = {0}
   Situations = FALSE
   Algo = "ring"
-  Impl = "fixABC"
+  Impl = "current"
   Sampling = FALSE
 INIT Init
 NEXT Next
 VIEW mcview
-INVARIANTS ModelContiguousSameTs ModelStartsAtHead ModelInOrder ModelNoPacketTwice ModelComplete ModelFilledSane
+INVARIANTS ModelContiguousSameTs ModelStartsAtHead ModelInOrder ModelNoPacketTwice ModelComplete ModelFilledSane EmitDone
 CHECK_DEADLOCK FALSE
